@@ -9,7 +9,8 @@
    field-level condition: svc_fields_encodable); run_ok = a run of datagrams, pending timers and node labels that keep RegEncodable. *)
 From ZC Require Import Model.Base Model.PyRec Model.Dict Model.Cache Model.Ingest Model.Respond Model.Route Model.WireDec Model.WireEnc
   Model.OutQueue Model.Register Model.Listener Model.Node Model.Front Gen.Const Gen.DnsPure Spec.CacheSpec Spec.AnswerSpec
-  Proofs.C15_enc Proofs.C15_resp Proofs.C15_svc Proofs.C15_front.
+  Proofs.C01_defs Proofs.C01_record Proofs.C11_lemmas Proofs.C11_route Proofs.C15_enc Proofs.C15_resp Proofs.C15_svc Proofs.C15_front
+  Proofs.C15_a1 Proofs.C15_a2 Proofs.C15_a3 Proofs.C15_a4 Proofs.C15_a5 Proofs.C15_alive.
 
 (* THE property: along every legitimate run, whatever bytes arrive next (and whichever pending reassembly timer fires), no exception
    leaves the handler; the invariants (listener bookkeeping, registry, cache, encodability) hold again afterwards; the registry is untouched *)
@@ -75,6 +76,65 @@ Proof. exact (proj2 (proj2 encoder_contained)). Qed.
 Theorem C15_encodable_services : forall s, svc_fields_ok s -> Forall rec_encodable (svc_records s).
 Proof. exact svc_fields_encodable. Qed.
 
+(* ... AND THE INSTANCE KEEPS WORKING: after any legitimate run (any datagram stream), the datagram that encodes a well-formed SRV question
+   for a registered service (any letter case), arriving from the mDNS port, not a byte-identical repeat within the duplicate window and with
+   no truncated query of that source pending, is answered: multicast at once - or, when the record was multicast less than a second ago,
+   queued in the protected queue, from which the next LReady at or after now + 1200 ms sends it *)
+Theorem C15_still_answered : forall ls s name addr now tc rq rd,
+  run_ok fnode_init ls ->
+  let f := fstate fnode_init ls in  let n := f_node f in
+  In s (registered (n_reg n)) -> n_done n = false -> wf_name name -> lower name = s_key s ->
+  let data := query_bytes (mkq name C_TYPE_SRV) in
+  is_duplicate (f_ls f) data now = false -> d_get text_eqb (ls_deferred (f_ls f)) addr = None ->
+  let l := FDatagram data addr C_MDNS_PORT now tc rq rd in  let n' := f_node (fst (fstep f l)) in
+  (last_second (n_cache n) now (dns_service s) = false /\
+   snd (fstep f l) = [OSend now None (srv_multicast s)] /\ o_answers (srv_multicast s) = [(dns_service s, 0)] /\
+   ttl_field (dns_service s) 0 = s_host_ttl s /\ (exists ps, packets (srv_multicast s) = Ok ps) /\ n' = n)
+  \/
+  (last_second (n_cache n) now (dns_service s) = true /\
+   snd (fstep f l) = [] /\ n_q n' = n_q n /\
+   exists k ids, names_id (n_tbl n') k (dns_service s) /\ n_qd n' = async_add (n_qd n) now now rd [(k, ids)] /\ queued k (n_qd n')).
+Proof. exact still_answered. Qed.
+
+Theorem C15_still_answered_in_time : forall ls T0 s name addr now tc rq rd,
+  run_ok fnode_init ls -> timed_run T0 ls -> end_time T0 ls <= now -> 20 <= rq <= 120 -> 20 <= rd <= 120 ->
+  let f := fstate fnode_init ls in  let n := f_node f in
+  In s (registered (n_reg n)) -> n_done n = false -> wf_name name -> lower name = s_key s ->
+  let data := query_bytes (mkq name C_TYPE_SRV) in
+  is_duplicate (f_ls f) data now = false -> d_get text_eqb (ls_deferred (f_ls f)) addr = None ->
+  let l := FDatagram data addr C_MDNS_PORT now tc rq rd in  let f' := fst (fstep f l) in
+  snd (fstep f l) = [OSend now None (srv_multicast s)] \/
+  forall t, now + 1200 <= t ->
+    exists m x, snd (fstep f' (FNode (LReady true t))) = [OSend t None m] /\ In (x, 0) (o_answers m) /\
+                gen_eq x (dns_service s) = true /\ o_multicast m = true.
+Proof. exact still_answered_in_time. Qed.
+
+(* the same query from a legacy source port is answered by unicast at once, with the question echoed *)
+Theorem C15_still_answered_unicast : forall ls s name addr port now tc rq rd,
+  run_ok fnode_init ls ->
+  let f := fstate fnode_init ls in  let n := f_node f in
+  In s (registered (n_reg n)) -> n_done n = false -> wf_name name -> lower name = s_key s -> port <> C_MDNS_PORT ->
+  let data := query_bytes (mkq name C_TYPE_SRV) in
+  is_duplicate (f_ls f) data now = false -> d_get text_eqb (ls_deferred (f_ls f)) addr = None ->
+  let l := FDatagram data addr port now tc rq rd in  let um := srv_unicast s now name 0 in
+  o_answers um = [(dns_service s, 0)] /\ o_questions um = [q_seen now name C_TYPE_SRV] /\ o_id um = 0 /\ o_multicast um = false /\
+  (exists ps, packets um = Ok ps) /\
+  exists rest, snd (fstep f l) = OSend now (Some (addr, port)) um :: rest /\
+    (rest = [OSend now None (srv_multicast s)] \/
+     rest = [] /\ exists k, names_id (n_tbl (f_node (fst (fstep f l)))) k (dns_service s) /\ queued k (n_qd (f_node (fst (fstep f l))))).
+Proof. exact still_answered_unicast. Qed.
+
+(* the datagram in question: what the encoder makes of a one-question query is decoded back to exactly that question *)
+Theorem C15_query_datagram : forall name ty now, wf_name name -> In ty [C_TYPE_SRV; C_TYPE_TXT; C_TYPE_A; C_TYPE_AAAA; C_TYPE_PTR; C_TYPE_ANY] ->
+  let q := mkq name ty in  let m := query_msg q in  let data := query_bytes q in
+  packets m = Ok [data] /\ Forall is_byte data /\ Z.of_nat (length data) <= C_MAX_MSG_ABSOLUTE /\
+  let p := parse data now None FRAMES in  let lm := lmsg_of data p in
+  m_valid p = true /\ m_escaped p = None /\ m_id p = 0 /\
+  lm_valid lm = true /\ lm_is_query lm = true /\ lm_truncated lm = false /\ lm_has_qu lm = false /\
+  m_questions p = [q_seen now name ty] /\ m_answers p = [] /\
+  qmsg_of p now = {| qm_questions := [q_seen now name ty]; qm_answers := []; qm_is_probe := false; qm_now := now |}.
+Proof. exact query_datagram. Qed.
+
 (* the hypotheses are needed and satisfiable *)
 Example C15_example_run :
   let ls := [ex_register ex_host; FDatagram ex_query [49] 5353 1000 450 20 20] in
@@ -102,4 +162,5 @@ Print Assumptions C15_no_exception_escapes. Print Assumptions C15_oversize_ignor
 Print Assumptions C15_decoder_contained. Print Assumptions C15_datagrams_touch_only. Print Assumptions C15_no_index_error.
 Print Assumptions C15_listener_invariant. Print Assumptions C15_fallbacks_never_taken. Print Assumptions C15_encoder_raises_only.
 Print Assumptions C15_replies_encodable. Print Assumptions C15_encodable_services. Print Assumptions C15_example_run.
-Print Assumptions C15_unencodable_service_refuted. Print Assumptions C15_bad_question_dropped. Print Assumptions C15_timer_side_condition.
+Print Assumptions C15_still_answered. Print Assumptions C15_still_answered_in_time. Print Assumptions C15_still_answered_unicast.
+Print Assumptions C15_query_datagram. Print Assumptions C15_unencodable_service_refuted. Print Assumptions C15_bad_question_dropped. Print Assumptions C15_timer_side_condition.
